@@ -2,7 +2,7 @@
     (implementation pre-state, operation, implementation post-state) triple.
     The same predicates are the conclusions of the theorems in [Properties/]. *)
 
-From Avt Require Export Spec.Screen Spec.Inert.
+From Avt Require Export Spec.Screen Spec.Inert Spec.Williams Spec.Functions.
 
 (** * C02 *)
 Definition holds_C02_state (v : vt) : bool :=
@@ -83,6 +83,17 @@ Definition sgr_decode_ok (ops : list sgr_op) (p : parser) : bool :=
 
 Definition holds_C03_sgr (f : func) (post : vt) : bool :=
   match f with Sgr ops => sgr_decode_ok ops (vparser post) | _ => true end.
+
+(** * C03: what one character emits according to the hand-written tables (Williams diagram +
+    function table), given the parser's state before that character *)
+Definition spec_emit (p : parser) (c : N) : option func :=
+  match t_kind (williams (pst p) c) with
+  | KPrint => Some (Print c)
+  | KExecute => execute_spec c
+  | KCsiDispatch => csi_spec (params p) (cur_param p) (inter p) c
+  | KEscDispatch => esc_spec (inter p) c
+  | _ => None
+  end.
 
 (** * C08 *)
 Definition holds_C08 (pre : vt) (f : func) (post : vt) : bool :=
